@@ -45,7 +45,7 @@ void record(TraceRecorder *rec, int slot)
   }
   c20t_thread_begin(slot, p->named[slot], (unsigned long long)pthread_self());
   for (int i = 0; i < p->bulk[slot]; i++) {
-    int nm = p->many_names ? 4 + (i * 7 + slot) % (C20_NAMES - 4) : (i & 3);
+    int nm = p->huge_names ? C20_NAMES + (i + slot) % C20_HUGE_NAMES : (p->many_names ? 4 + (i * 7 + slot) % (C20_NAMES - 4) : (i & 3));
     s.marker(c20_name(nm), c20_cat(i % 3));
     c20t_recorded(slot, C20_MARKER, nm, i % 3, 0);
   }
